@@ -50,7 +50,7 @@ Definition O_of (fresh : list evt) : oracles :=
       (fun z => Some z)
       (fun a => snd (fst a)) (fun a => snd a)
       (fun _ _ _ a t => lookup_rid fresh 0 (fst (fst a)) t)
-      (fun _ => 1%Q) (fun _ _ => false) (fun s _ _ => s)
+      (fun _ => []) (fun _ _ => false) (fun s _ _ => s)     (* no bases: smallest probability 1, every valid num_samples is all-exact *)
       (fun _ a ns => lookup_rid fresh (match ns with NInf => 1 | NFin _ => 5 end) a None)
       (fun _ _ _ _ => 4999)
       (fun _ a => lookup_rid fresh 2 a None).
@@ -125,3 +125,34 @@ Definition chk_copy (c : option (bool * bool) * option (list gname) * option (li
 Definition chk_define (c : list (gname * list gname) * res an_v) : bool :=
   let '(acts, e) := c in
   res_beq an_v_beq (res_map an_view (define_all (Ok an_empty) (map (fun p => mkA (fst p) (snd p)) acts))) e.
+
+(* ---------- get_group("TwoQubitGates") on a filtered copy (Model/ProcessCF.v) ---------- *)
+From CKT Require Model.CutFinder.
+From CKT Require Import Model.ProcessCF.
+
+Definition akind_code (k : CutFinderState.akind) : nat :=
+  match k with CutFinderState.KApply => 0 | CutFinderState.KGate => 1 | CutFinderState.KLeft => 2
+             | CutFinderState.KRight => 3 | CutFinderState.KBoth => 4 end.
+Definition akinds_beq (a b : list CutFinderState.akind) : bool := list_beq Nat.eqb (map akind_code a) (map akind_code b).
+
+(* (option settings | None, groups passed to copy, names of the real group | None when the group is absent) *)
+Definition chk_group (c : option (bool * bool) * option (list gname) * option (list gname)) : bool :=
+  let '(settings, groups, names) := c in
+  (match settings with
+   | Some (gl, wl) => option_beq (list_beq gname_eqb) groups (Some (cut_search_groups gl wl))
+   | None => true
+   end) &&
+  match an_copy import_registry groups with
+  | Ok cp =>
+      match two_qubit_group cp, names with
+      | Some None, None => true
+      | Some (Some acts), Some ns =>
+          match akinds_of ns with Some e => akinds_beq acts e | None => false end &&
+          (match settings with
+           | Some (gl, wl) => akinds_beq acts (CutFinderState.search_actions gl wl)     (* = the list C07's model hard-codes *)
+           | None => true
+           end)
+      | _, _ => false
+      end
+  | _ => false
+  end.
